@@ -1,1 +1,7 @@
+//! Shared simulator core: PRNG, plan vocabulary (what a replay file contains), counters.
 
+pub mod plan;
+pub mod prng;
+
+pub use plan::*;
+pub use prng::{fnv1a, run_seed, Prng};
